@@ -35,6 +35,27 @@ CHECKS.update({
  'C12': elem('C12', 'clauses C12_reject (a rejected child was not completable) and C12_unique (uniquely arrangeable bags serialise in that arrangement, same names in insertion order)', 'DESIGN.md 3.3, 6 C12'),
  'C19': elem('C19', 'clauses C19_class (exception families, never internal errors) and C19_quiet (no stdout/stderr) at every recorded step', 'DESIGN.md 3.3, 6 C19'),
 })
+VAL_NOTE = ('trusted: simple-type tables / pattern automata generated from the pinned XSD, the lexical-space definitions of spec/Lexical.tla (LexicalTest examples), '
+            'the public-API projection (harness/replay_values.py), xml.etree as the standard XML parser, TLC.')
+
+
+def val(pid, what, sec, also_elem=False):
+    return dict(
+        technique='TLA+ spec (Values.tla over Lexical.tla / Schema tables) + TLC: ValuesGen derives the probing tokens of every simple type from its definition, the harness offers them at every attribute / text slot of every element class, ValuesTrace judges every recorded step (trace validation)' + ('; plus the Element campaign clauses of this property' if also_elem else '') + '; ' + what,
+        level=('model_checking', 'For all 441 element classes, every declared attribute and the text slot are offered the tokens TLC derives from the slot\'s simple type (every enumeration literal, bounds +-1, one word through every edge of every pattern automaton and one-edit mutants, white-space variants, float magnitudes, bools, non-finite, None) through the constructor-keyword and the dot surface, then serialised and read back; undeclared names are offered too. '
+               'Each recorded step is validated by TLC against Values.tla; membership in a lexical space is decided in TLA+ (InLex) on code points, never in Python. Exhaustive over (class, slot) pairs for the representative element of each type; token sets are finite samples of infinite lexical spaces.', sec),
+        note=VAL_NOTE, thorough=True)
+
+
+CHECKS.update({
+ 'C04': val('C04', 'clauses C04_decl / C04_value / C04_store / C04_unset / C04_required / C04_names', 'DESIGN.md 3.4, 6 C04'),
+ 'C05': val('C05', 'clauses C05_complete (valid normalised offers are accepted), C05_sound (emitted text is in the lexical space), C05_value, C05_notext', 'DESIGN.md 3.4, 6 C05'),
+})
+for _p, _w in (('C10', 'clauses C10_frame / C10_future (Element) and C10_frame (Values: a refused attribute / value assignment stores nothing)'),
+               ('C15', 'clauses C15_same / C15_noop (xml_x dot assignment == explicit add/replace/remove) and C15_same / C15_read (keyword == dot attribute assignment; e.attr reads)'),
+               ('C16', 'clauses C16_pure / C16_future: to_string leaves the projection and every later outcome unchanged'),
+               ('C19', 'clauses C19_class / C19_quiet at every recorded step of both campaigns')):
+    CHECKS[_p] = elem(_p, _w + '; also every step of the Values campaign', 'DESIGN.md 3.3, 3.4, 6 ' + _p)
 NA_REASON = 'check not built yet (construction in progress; DESIGN.md section 7 gives the order)'
 
 
